@@ -146,6 +146,10 @@ func c15Family(n int) []uriSpec {
 			}
 		}
 	}
+	// '?' inside header names / values (legal there), in every position of the header list
+	for _, hl := range [][]string{{"a=x?y", "b=1"}, {"b=1", "a=x?y"}, {"q?=1", "b=1", "c=2"}, {"?a=1", "b=2"}, {"a=1"}} {
+		special = append(special, uriSpec{Scheme: "sip", User: "u", Host: "h.example", Hdrs: hl}, uriSpec{Scheme: "sip", Host: "h.example", Params: []string{"lr"}, Hdrs: hl})
+	}
 	// escapes in user and password: the bytes after a %HH escape compare like all others (case-sensitively)
 	for _, us := range []string{"%41lice", "%41Lice", "%41lIce", "al%69ce", "al%69cE"} {
 		for _, pw := range []string{"", "p%40ss", "p%40sS", "p%40Ss"} {
